@@ -25,17 +25,28 @@ Local Open Scope Z_scope.
    8 const void*, 9 std::string, 10 std::vector<int>;
    11..13 instrumented payloads of sizeof 9, 12, 15 (bigger than the holder's word, not a multiple of it),
    14 a plain struct of three ints (12), 15 a plain struct of nine chars (9), 16 a plain struct of four ints (16),
-   17 a plain struct of two ints (8);  the harness static_asserts these sizes.
+   17 a plain struct of two ints (8);
+   18..20 Setting (8, in place), Triple (12), Record (40, non-trivial) of the harness's unnamed namespace;
+   21..23 the types of the SAME SPELLING (Setting, Triple, Record; 8, 12, 40 bytes) that the harness's second translation
+   unit declares in ITS unnamed namespace: distinct C++ types (one per unit, internal linkage) although their
+   std::type_info::name() strings are equal.  In the model they are simply further tags: the type test of typed access
+   (`cast`: hty (slot s i) =? ty, C++: `v.type() == typeid(T)`) is equality of TYPES, i.e. of tags - never of names;
+   the harness static_asserts all these sizes.
    Value semantics do not depend on the type: the tag only selects the representation (stored_inplace) and
    whether the harness can report an object id (instr). *)
-Definition NTY : Z := 18.
+Definition NTY : Z := 24.
 Definition PTR_SIZE : Z := 8.
 Definition size_of (ty : Z) : Z :=
   if ty =? 0 then 1 else if ty =? 1 then 4 else if ty =? 2 then 8 else if ty =? 3 then 16 else
   if ty =? 4 then 40 else if ty =? 5 then 32 else if ty =? 6 then 1 else if ty =? 7 then 4 else
   if ty =? 8 then 8 else if ty =? 9 then 32 else if ty =? 10 then 24 else
   if ty =? 11 then 9 else if ty =? 12 then 12 else if ty =? 13 then 15 else
-  if ty =? 14 then 12 else if ty =? 15 then 9 else if ty =? 16 then 16 else 8.
+  if ty =? 14 then 12 else if ty =? 15 then 9 else if ty =? 16 then 16 else if ty =? 17 then 8 else
+  if ty =? 18 then 8 else if ty =? 19 then 12 else if ty =? 20 then 40 else
+  if ty =? 21 then 8 else if ty =? 22 then 12 else 40.
+(* the type of the same spelling in the other translation unit (-1 = none; never the type itself) *)
+Definition twin (ty : Z) : Z :=
+  if (18 <=? ty) && (ty <=? 20) then ty + 3 else if (21 <=? ty) && (ty <=? 23) then ty - 3 else -1.
 (* vtable<T>(): in_place (sizeof T) (sizeof void-pointer), generated from detail/value_store.h *)
 Definition stored_inplace (ty : Z) : bool := in_place (size_of ty) PTR_SIZE.
 Definition instr (ty : Z) : bool := ((0 <=? ty) && (ty <? 6)) || ((11 <=? ty) && (ty <? 14)).
